@@ -149,8 +149,9 @@ func c09R2R3(p *core.Prog, r *core.Report) {
 	sizeOK := false
 	for _, e := range mismatchEdges(fn, func(bo *ssa.BinOp) bool {
 		for _, side := range []ssa.Value{bo.X, bo.Y} {
-			for _, oc := range originCalls(side) {
-				if cal := core.Callee(oc); cal != nil && core.IsFunc(cal, "io", "Copy") {
+			for _, o := range core.Origins(side, core.SliceOpts{}) {
+				// the byte count (result 0) of io.Copy, not its error
+				if o.Kind == core.OCall && o.Res == 0 && o.Callee() != nil && core.IsFunc(o.Callee(), "io", "Copy") {
 					return true
 				}
 			}
